@@ -237,8 +237,11 @@ inline NodeList readback(const Schema& s, const MessageBase *mb, bool skip_frami
 		const BaseField *bf = pp.second; int tag = bf->get_tag();
 		if (skip_framing && (tag == 8 || tag == 9 || tag == 35 || tag == 10)) continue;
 		Node n; n.tag = tag;
-		std::ostringstream os; bf->print(os); n.text = os.str();
 		auto f = s.fields.find(tag);
+		// text of the decoded field: print(ostream); for floats the codec's own rendering print(char*), because the
+		// stream form is a display form limited to the stream's precision (6 significant digits: 123456.78 -> "123457")
+		if (f != s.fields.end() && f->second.vclass() == sm::V_FLOAT) { char b[256]; size_t l = bf->print(b); n.text.assign(b, l); }
+		else { std::ostringstream os; bf->print(os); n.text = os.str(); }
 		GroupBase *gb = mb->find_group((unsigned short)tag);
 		if (gb) {
 			n.group = true;
@@ -268,6 +271,12 @@ inline bool value_eq(const Schema& s, int tag, const std::string& a, const std::
 	auto f = s.fields.find(tag);
 	if (f != s.fields.end() && f->second.vclass() == sm::V_FLOAT)
 		return float_syntax(a) && float_syntax(b) && strtod(a.c_str(), 0) == strtod(b.c_str(), 0);
+	// a timestamp given in the seconds form "YYYYMMDD-HH:MM:SS" denotes the same instant as "YYYYMMDD-HH:MM:SS.000",
+	// which is how fix8 renders it (the property speaks of values; its domain is timestamps at millisecond precision)
+	if (f != s.fields.end() && f->second.vclass() == sm::V_TIMESTAMP) {
+		auto canon = [](const std::string& t) { return t.size() == 17 ? t + ".000" : t; };
+		return canon(a) == canon(b);
+	}
 	return false;
 }
 // structural + textual comparison; returns "" when equal, else a description of the first difference
